@@ -11,7 +11,7 @@ RULE = ("fault injection at gpyreg.GP.fit entry (LinAlgError at chosen invocatio
         "2-4 indices (the statement's quantifier; a WHOLE refit failing = 10 consecutive faults is outside it and not injected); plus "
         "LinAlgError in the POSTERIOR RECOMPUTATION that ends a local fit (the listed 'fallback to previous hyper-parameters' mechanism) "
         "early/middle/late in the run, single and 3 consecutive; modes det / auto / declared / he (noise vector present) x "
-        "geometries. Oracle: optimize() returns, and on that faulted run the run-level monitors of C01 (bounds), C03 (budget, count, "
+        "geometries; plus plateau / staircase targets (tied training values). Oracle: optimize() returns, and on that faulted run the run-level monitors of C01 (bounds), C03 (budget, count, "
         "message) and C04/C05 (truthful result) all hold. distinct_nontrivial = distinct (mode, plan shape, fit kind initial|local) "
         "cells in which a fault was actually DELIVERED (measured), weighted by distinct k")
 RUN_KW = {"quick": dict(timeout_case=900, wall_cap=1200), "thorough": dict(timeout_case=3200, wall_cap=3400)}
@@ -30,6 +30,13 @@ def cases(tier, seed):
                              where=str(rng.choice(["in", "onb"])), mode=mode, sigma=float(rng.choice([0.05, 0.5])), noise_src="private",
                              max_fun_evals=int(rng.choice([50, 60, 80])), options={"noise_final_samples": int(rng.choice([1, 3]))} if mode != "det" else {})
         out.append({"spec": spec, "nplans": 7 if tier == "quick" else 40, "pseed": int(rng.integers(1 << 30))})
+    # tied training values (plateaus, staircases): the retry path prunes "the worst 5%" of the training points - with ties at
+    # the top that rule must not empty the set
+    for j in range(8 if tier == "quick" else 32):
+        rng = gen.rng_for(seed, "C16", 5000 + j)
+        spec = gen.make_spec(rng, D=int(rng.choice([1, 2])), geom=str(rng.choice(["lin", "tight"])), x0mode="in", land=str(rng.choice(["const", "stair", "stair"])),
+                             where="in", mode=str(rng.choice(["det", "det", "declared"])), sigma=1e-3, noise_src="private", max_fun_evals=int(rng.choice([50, 70])))
+        out.append({"spec": spec, "nplans": 9 if tier == "quick" else 40, "pseed": int(rng.integers(1 << 30))})
     return out
 
 
